@@ -756,3 +756,146 @@ pub fn ids_long(rng: &mut Rng, ops: u32) -> Case {
     ];
     Case { scenario: Scenario { config, steps }, aux: None, profile: "ids/long-history", gen_hash: None, systematic: false }
 }
+
+// ---------------------------------------------------------------------------------------
+// C17 — session resumption
+
+fn resume_cfg(rng: &mut Rng) -> (GenCfg, u32) {
+    let mut cfg = GenCfg::conformant(rng);
+    cfg.w_ops = [rng.range(0, 1) as u32, 4, 4, 0, 0, rng.range(0, 1) as u32];
+    cfg.max_ops = rng.urange(1, 9);
+    cfg.steps = rng.urange(2, 40);
+    cfg.receive_max = None;
+    cfg.all_reasons = rng.chance(1, 3);
+    cfg.drain = false;
+    cfg.writer_tweaks = false;
+    cfg.handles = rng.urange(1, 2);
+    // effective session expiry: CONNECT value, possibly overridden by CONNACK
+    let connect_e = *rng.pick(&[None, Some(0u32), Some(30), Some(3600), Some(100_000), Some(u32::MAX)]);
+    let connack_e = if rng.chance(1, 3) { Some(*rng.pick(&[0u32, 60, 7200, u32::MAX])) } else { None };
+    cfg.session_expiry = connect_e;
+    cfg.connack_session_expiry = connack_e;
+    let effective = connack_e.or(connect_e).unwrap_or(0);
+    (cfg, effective)
+}
+
+fn elapsed_for(rng: &mut Rng, effective: u32) -> u64 {
+    match effective {
+        0 | u32::MAX => *rng.pick(&[0u64, 1, 100, 10_000_000_000]),
+        e => {
+            let e = e as u64;
+            // never within 2 s of the expiry instant (equality is not specified)
+            if rng.coin() {
+                *rng.pick(&[0u64, 1, e / 2, e.saturating_sub(3)])
+            } else {
+                *rng.pick(&[e + 3, e * 2, e + 86_400, 5_000_000_000])
+            }
+        }
+    }
+}
+
+pub fn resume(rng: &mut Rng) -> Case {
+    let (cfg, effective) = resume_cfg(rng);
+    let mut g = Gen::new(cfg, rng);
+    g.preamble();
+    for _ in 0..g.cfg.steps {
+        g.action();
+    }
+    // everything the broker sent so far arrives
+    g.push(Step::WriterReady);
+    g.push(Step::Deliver { n: usize::MAX });
+    g.settle();
+    // optionally one more acknowledgement that is cut in the middle (lost)
+    if g.rng.chance(1, 3) {
+        let acks = g.ack_candidates();
+        if !acks.is_empty() {
+            let (op, kind) = acks[g.rng.usize_below(acks.len())];
+            let before = g.steps.len();
+            g.send_ack(op, kind);
+            // re-shape the step just pushed: first 1-3 bytes delivered, rest held and lost
+            if let Some(Step::Broker { chunks, hold, .. }) = g.steps.get_mut(before) {
+                let _ = (chunks, hold);
+            }
+            g.rollback_stage(op, kind);
+        }
+    }
+    let cut = g.rng.below(10);
+    if cut < 8 {
+        let k = if g.rng.coin() { FaultKind::ReadEof } else { FaultKind::ReadErr };
+        g.push(Step::Fault(k));
+    } else {
+        let after = g.rng.urange(0, 10);
+        g.push(Step::Fault(FaultKind::WriteErr { after }));
+        let id = g.next_op_id();
+        g.push(Step::Op { id, handle: 0, spec: OpSpec::Ping });
+        let id = g.next_op_id();
+        g.push(Step::Op { id, handle: 0, spec: OpSpec::Ping });
+    }
+    g.settle();
+    let elapsed = elapsed_for(g.rng, effective);
+    if g.rng.chance(1, 4) {
+        let secs = g.rng.range(1, 50);
+        g.push(Step::AdvanceClock(secs));
+    }
+    let connect = g.connect_spec();
+    g.push(Step::Reconnect { elapsed, connect, auths: vec![] });
+    g.settle();
+    let props = g.connack_props();
+    let session_present = g.rng.coin();
+    g.broker(BrokerPkt::Connack { session_present, reason: 0, props });
+    g.push(Step::Deliver { n: usize::MAX });
+    g.settle();
+    // the new connection: acknowledgements for what was re-sent, some new traffic
+    g.cfg.steps = g.rng.urange(0, 25);
+    for _ in 0..g.cfg.steps {
+        g.action();
+    }
+    g.drain();
+    finish_case(g, "resume")
+}
+
+/// Crash-point enumeration: the connection of a seeded publish history is cut after every
+/// prefix, for sessions that must survive and sessions that must not.
+pub fn systematic_resume(thorough: bool, seed: u64) -> Vec<Case> {
+    let mut cases = Vec::new();
+    let bases = if thorough { 60 } else { 10 };
+    for b in 0..bases {
+        let mut rng = Rng::derive(seed, 0xC17, b);
+        let (mut cfg, effective) = resume_cfg(&mut rng);
+        cfg.steps = rng.urange(6, 26);
+        cfg.read_style = ReadStyle::Whole;
+        cfg.hold_pct = 0;
+        let connect;
+        let connack_props;
+        let base: Vec<Step> = {
+            let mut g = Gen::new(cfg, &mut rng);
+            g.preamble();
+            for _ in 0..g.cfg.steps {
+                g.action();
+            }
+            connect = g.connect_spec();
+            connack_props = g.connack_props();
+            let (sc, w) = g.finish();
+            drop(w);
+            sc.steps
+        };
+        let _ = poster::verif::take_probes();
+        let config = Config { handles: 2, ..Config::default() };
+        for k in 4..=base.len() {
+            for elapsed in [elapsed_for(&mut rng, effective), elapsed_for(&mut rng, effective)] {
+                let mut steps: Vec<Step> = base[..k].to_vec();
+                steps.push(Step::WriterReady);
+                steps.push(Step::Deliver { n: usize::MAX });
+                steps.push(Step::Settle { seed: 11 });
+                steps.push(Step::Fault(if (k + elapsed as usize) % 2 == 0 { FaultKind::ReadEof } else { FaultKind::ReadErr }));
+                steps.push(Step::Settle { seed: 12 });
+                steps.push(Step::Reconnect { elapsed, connect: connect.clone(), auths: vec![] });
+                steps.push(Step::Settle { seed: 13 });
+                steps.push(Step::Broker { pkt: BrokerPkt::Connack { session_present: true, reason: 0, props: connack_props.clone() }, chunks: Chunks::Whole, hold: false });
+                steps.push(Step::Settle { seed: 14 });
+                cases.push(Case { scenario: Scenario { config: config.clone(), steps }, aux: None, profile: "resume/cut-after-every-prefix", gen_hash: None, systematic: true });
+            }
+        }
+    }
+    cases
+}
